@@ -58,6 +58,13 @@ func (e *Engine) concFloat(st *State, v Val) *big.Float {
 func registerFloatBridge(e *Engine) {
 	ic := e.intercept
 	cut := func(what string) { abort("cut", "%s with a symbolic argument is not modelled", what) }
+	ic["(*math/big.Float).Cmp"] = func(e *Engine, st *State, fr *Frame, in ssa.CallInstruction, a []Val) Val {
+		x, y := e.concFloat(st, a[0]), e.concFloat(st, a[1])
+		if x == nil || y == nil {
+			cut("big.Float.Cmp on a symbolic value")
+		}
+		return ConstBV(64, uint64(int64(x.Cmp(y))))
+	}
 	ic["math/big.ParseFloat"] = func(e *Engine, st *State, fr *Frame, in ssa.CallInstruction, a []Val) Val {
 		s, ok := a[0].(StrVal).goString()
 		base, ok2 := concInt(a[1])
